@@ -17,8 +17,8 @@ PLANS = {
     "C07": [("base", 200, 5000), ("fwdonly", 150, 4000), ("errors", 150, 4000)],
     "C09": [("gate", 250, 6000), ("fwdonly", 150, 4000)],
     "C10": [("base", 200, 5000), ("fwdonly", 200, 5000)],
-    "C11": [("errors", 400, 10000)],
-    "C13": [("redirect", 300, 7000), ("redirunk", 150, 3000)],
+    "C11": [("errors", 300, 8000), ("errredir", 250, 6000)],
+    "C13": [("redirect", 300, 7000), ("redirunk", 150, 3000), ("errredir", 150, 3000)],
     "C15": [("bclose", 300, 7000), ("redirunk", 150, 3000)],
     "C16": [("timeout", 400, 10000)],
     "C06": [("base", 120, 3000), ("fwdonly", 120, 3000)],
@@ -132,6 +132,8 @@ def run(pid, tier, seed):
                        raw_checks.backend_backpressure_scenario("bp-backend-3", nbig=6, bigsize=60000, rounds=6, chunk=70000)]
             groups.append((dict(raw_checks.BP_CFG), bp, "bp", None))
             specs["bp"] = dict(spec="RawTrace", cfgfile="RawTrace.cfg", par=2)
+            groups.append((dict(raw_checks.BP_CFG_MID), [raw_checks.backend_backlog_scenario("bp-backlog-1")], "bp2", None))
+            specs["bp2"] = dict(spec="OrderTrace", cfgfile="OrderTrace.cfg", par=1)
         viol = []
         groups = [g for g in groups if g[1]]
 
@@ -168,7 +170,7 @@ def run(pid, tier, seed):
             if len(cov["samples"]) < 3:
                 cov["samples"].append({"source": tag, "cfg": cfg, "scenario": scs[0]})
             for v in r["viol"]:
-                if tag == "bp" and (v["code"].startswith("request-") or v["code"] == "malformed-request-forwarded"):
+                if tag in ("bp", "bp2") and (v["code"].startswith("request-") or v["code"] == "malformed-request-forwarded"):
                     v = dict(v, prop="C10", code="request-stream-to-node-corrupted:" + v["code"])
                 if v["prop"] == pid or v["prop"] == "DEAD":
                     viol.append(v)
@@ -190,7 +192,9 @@ def replay(pid, payload):
     wd = common.scratch()
     try:
         ops = {x["op"] for x in _stims(payload["scenario"])}
+        nreq = sum(len(x["reqs"]) for x in _stims(payload["scenario"]))
         kw = dict(spec="TopoTrace", cfgfile="TopoTrace.cfg") if ops & {"topo", "refresh"} else \
+            dict(spec="OrderTrace", cfgfile="OrderTrace.cfg") if nreq > 1000 else \
             dict(spec="RawTrace", cfgfile="RawTrace.cfg") if ops & {"npause", "nreadsome"} else {}
         r = common.replay_and_validate(payload["cfg"], [payload["scenario"]], wd, "replay", par=1, **kw)
         out = []
